@@ -148,7 +148,9 @@ def clone(op, t, memory_format=torch.preserve_format):
     out_data = t._data.reshape(t.shape)
     out_data = op(t._data, memory_format=memory_format)
     out_stride = out_data.stride()
-    out_data = out_data.reshape(data_shape)
+    if out_data.shape != data_shape:
+        # (a reshape to the same shape can still change the strides of the dimensions of size one)
+        out_data = out_data.reshape(data_shape)
     # (the memory format only applies to the data: the scale can have another rank)
     out_scale = op(t._scale)
     return QBytesTensor(t.qtype, t.axis, t.size(), out_stride, out_data, out_scale)
